@@ -21,6 +21,8 @@ import Pog.Lemmas.SanIdem
     the URL f-string of the single-media method never reads an unbound name         (full)    `url_ok`
     method / substituted path / query / headers / cookies / body                    (partial) `request_fidelity_partial`
     optional argument left as None is omitted                                      (full)    `optional_none_omitted`
+    ≥ 2 request media types: an optional request body can be omitted               full      `optional_body_omitted_former_witness` (F62 repaired),
+                                                                                              `optional_body_can_be_omitted`
     cookie parameters are sent                                                     full      `cookie_sent_former_witness` (F11 repaired), the cookie
                                                                                               entries of `request_fidelity_partial`
     every query / header / cookie entry stems from a parameter declared there       (full)    `no_entry_without_parameter`
@@ -176,18 +178,63 @@ theorem exactly_one_request (op : Op) (args : GArgs) :
     rfl
 
 /-- A well-typed call of an operation with several request media types (every positional parameter given,
-    every path variable declared, one body keyword given) also sends exactly one request. -/
+    every path variable declared, and a body keyword given or - F62 repaired - the requestBody optional) also sends
+    exactly one request. -/
 theorem exactly_one_request_multi (op : Op) (args : GArgs) (hm : moduleOk op = true) (hmulti : isMulti op = true)
     (hb : bindOk (sigOf op) args = true)
     (hv : ∀ v ∈ pathVars op.path, sanMethod v ∈ (sigOf op).map (·.1))
-    (hbody : ∃ b, dispatchBody args ((op.body.map (·.media)).getD []) = some b) :
+    (hbody : (∃ b, dispatchBody args ((op.body.map (·.media)).getD []) = some b) ∨
+      (op.body.map (·.required)).getD true = false) :
     (wire op args).length = 1 := by
-  obtain ⟨b, hbd⟩ := hbody
   unfold wire buildRequest
   simp only [hm, hmulti, Bool.not_true, Bool.false_eq_true, if_false, if_true]
   unfold buildOvl
-  simp only [hb, Bool.not_true, Bool.false_eq_true, if_false, urlPieces_ok _ args op.path hv, hbd]
-  rfl
+  simp only [hb, Bool.not_true, Bool.false_eq_true, if_false, urlPieces_ok _ args op.path hv]
+  rcases hbody with ⟨b, hbd⟩ | hopt
+  · simp only [hbd]
+    rfl
+  · cases hd : dispatchBody args ((op.body.map (·.media)).getD []) with
+    | none => simp only [hopt, Bool.false_eq_true, if_false]; rfl
+    | some b => rfl
+
+/-- `PATCH /docs/{id}` whose OPTIONAL requestBody has two media types. -/
+def exOptBody : Op :=
+  ⟨"PATCH".toList, [.lit "/docs/".toList, .var "id".toList], [⟨"id".toList, .path, true, .plain⟩],
+   some ⟨false, [mtJson, mtMultipart]⟩, [⟨.num 200, []⟩]⟩
+
+/-- (an optional argument left as None is omitted)  The FORMER WITNESS of F62: called with the path argument only, the
+    runtime dispatch used to end in `raise ValueError("One of the content-type parameters must be provided")` and no
+    request was sent.  Since the repair the `else:` branch of an operation whose requestBody is not required sends the
+    request without a body; with `required: true` the ValueError remains. -/
+theorem optional_body_omitted_former_witness :
+    buildRequest exOptBody [("id_".toList, .str "7".toList)] = .ok
+      { method := "PATCH".toList, path := [.lit "/docs/".toList, .val (.str "7".toList)], query := none, headers := none,
+        body := .none } ∧
+    buildRequest { exOptBody with body := some ⟨true, [mtJson, mtMultipart]⟩ } [("id_".toList, .str "7".toList)]
+      = .error .valueError := by
+  decide +kernel
+
+/-- The repair in general: a well-typed call (every positional parameter given, every path variable declared) of an
+    operation with several request media types whose requestBody is OPTIONAL, made without any body keyword, sends the
+    request without a body. -/
+theorem optional_body_can_be_omitted (op : Op) (args : GArgs) (hm : moduleOk op = true) (hmulti : isMulti op = true)
+    (hb : bindOk (sigOf op) args = true)
+    (hv : ∀ v ∈ pathVars op.path, sanMethod v ∈ (sigOf op).map (·.1))
+    (hopt : (op.body.map (·.required)).getD true = false)
+    (hnone : dispatchBody args ((op.body.map (·.media)).getD []) = none) :
+    buildRequest op args = .ok
+      { method := op.method, path := substPath args op.path, query := none, headers := none, body := .none } := by
+  unfold buildRequest
+  simp only [hm, hmulti, Bool.not_true, Bool.false_eq_true, if_false, if_true]
+  unfold buildOvl
+  simp only [hb, Bool.not_true, Bool.false_eq_true, if_false, urlPieces_ok _ args op.path hv, hnone, hopt]
+
+example : moduleOk exOptBody = true ∧ isMulti exOptBody = true ∧
+    bindOk (sigOf exOptBody) [("id_".toList, .str "7".toList)] = true ∧
+    (∀ v ∈ pathVars exOptBody.path, sanMethod v ∈ (sigOf exOptBody).map (·.1)) ∧
+    (exOptBody.body.map (·.required)).getD true = false ∧
+    dispatchBody [("id_".toList, .str "7".toList)] ((exOptBody.body.map (·.media)).getD []) = none := by
+  decide +kernel
 
 /-- A `GET /pets/{petId}` with a path-level header, an optional and a required query parameter and a JSON body. -/
 def exOp : Op :=
@@ -300,7 +347,11 @@ theorem buildOvl_ok {op : Op} {args : GArgs} {r : Request} (h : buildOvl op args
   · split at h
     · cases h
     · split at h
-      · cases h
+      · split at h
+        · cases h
+        · simp only [Except.ok.injEq] at h
+          subst h
+          exact ⟨rfl, rfl, rfl, rfl⟩
       · simp only [Except.ok.injEq] at h
         subst h
         exact ⟨rfl, rfl, rfl, rfl⟩
@@ -539,16 +590,8 @@ theorem multi_content_drops_query (op : Op) (args : GArgs) (r : Request) (hm : i
   unfold buildRequest at h
   split at h
   · cases h
-  · unfold buildOvl at h
-    split at h
-    · cases h
-    · split at h
-      · cases h
-      · split at h
-        · cases h
-        · simp only [Except.ok.injEq] at h
-          subst h
-          exact ⟨rfl, rfl⟩
+  · obtain ⟨_, h1, h2, _⟩ := buildOvl_ok h
+    exact ⟨h1, h2⟩
 
 /-- ✗ … and an OPTIONAL parameter of such an operation has no default: leaving it out is a `TypeError`. -/
 theorem multi_content_optional_is_required_counterexample :
